@@ -232,7 +232,7 @@ func (p *parser) parseRelated() {
 				p.match("[", "]", optional(","))
 			}
 
-			p.namespace.Relations = append(p.namespace.Relations, ast.Relation{
+			p.addRelation(item, ast.Relation{
 				Name:  relation,
 				Types: types,
 			})
@@ -242,6 +242,19 @@ func (p *parser) parseRelated() {
 			return
 		}
 	}
+}
+
+// addRelation adds a relation or permission to the current namespace. A name
+// can only be declared once per namespace, because relations and permissions
+// are looked up by name only.
+func (p *parser) addRelation(nameItem item, relation ast.Relation) {
+	for _, r := range p.namespace.Relations {
+		if r.Name == relation.Name {
+			p.addErr(nameItem, "%q was already declared in namespace %q", relation.Name, p.namespace.Name)
+			return
+		}
+	}
+	p.namespace.Relations = append(p.namespace.Relations, relation)
 }
 
 func (p *parser) matchSubjectSet() ast.RelationType {
@@ -291,7 +304,7 @@ func (p *parser) parsePermits() {
 			if rewrite == nil {
 				return
 			}
-			p.namespace.Relations = append(p.namespace.Relations,
+			p.addRelation(item,
 				ast.Relation{
 					Name:              permission,
 					SubjectSetRewrite: rewrite,
